@@ -20,6 +20,7 @@ from sfv.translate import combguards, tagguards
 DRIVER = "Drivers/C02.lean"
 COMPS = [0, 1, 2, 9, 10, 11]
 SLOW_S = 900  # generous wall-clock bound per case (shared, loaded machine)
+STEP_S = 300  # bound of one step-level case (normally ~50 ms)
 KEY_DESC = "dot:port-with-tag-and-own-descendant:order-dependent"
 KEY_MIXED = "cart:ports-with-mixed-tag-depths:order-dependent"
 KEY_NEST_D2 = "nest:inner-cartesian-depth>=2:schema-tags-collide:order-dependent"
@@ -155,7 +156,15 @@ async def run_step(sfc, shape: dict, events: list, name: str) -> dict:
         for p in ports:
             ins[p].put(TerminationToken(Status.COMPLETED))
 
-    await asyncio.gather(asyncio.create_task(feeder()), asyncio.create_task(step.run()))
+    ft, st = asyncio.create_task(feeder()), asyncio.create_task(step.run())
+    try:
+        await asyncio.gather(ft, st)
+    finally:
+        # an exception of step.run() must not leave the feeder (or a database call of it) pending when the loop is torn down
+        for t in (ft, st):
+            if not t.done():
+                t.cancel()
+        await asyncio.gather(ft, st, return_exceptions=True)
     logs, tails, prov = {}, {}, []
     for p in ports:
         tl = outs[p].token_list
@@ -759,18 +768,22 @@ class C02(Property):
                 evs = [S[j] for j in order]
                 seed = rng.randrange(1 << 30)
                 try:
-                    with alarm(SLOW_S):
+                    with alarm(STEP_S + 60):
                         out = sfloop.run_controlled(lambda: run_step(sfc, shape, evs, f"w{ctx.seed}-{ctx.mode}-{i}"), seed,
-                                                    timeout=SLOW_S - 60)
+                                                    timeout=STEP_S)
                 except (Hang, TimeoutError):
                     # a step case normally takes ~50 ms; on a loaded machine an overrun is inconclusive, not a violation
-                    ctx.notes.append(f"step-level case {i} exceeded {SLOW_S - 60} s: {shape} {evs} (loop seed {seed})")
+                    ctx.notes.append(f"step-level case {i} exceeded {STEP_S} s: {shape} {evs} (loop seed {seed})")
+                    known = {KEY_DESC, KEY_MIXED, KEY_NESTC, KEY_NEST_D2}
+                    if ctx.broken or any(f.key not in known for f in ctx.failures):
+                        # the earlier stages already have a failing input / a broken tie: report those, skip the rest of this stage
+                        break
                     ctx.extra["incomplete"] = True
-                    raise Inconclusive(f"CombinatorStep.run case exceeded {SLOW_S - 60} s on {shape} {evs} (loop seed {seed})")
+                    raise Inconclusive(f"CombinatorStep.run case exceeded {STEP_S} s on {shape} {evs} (loop seed {seed})")
                 except Exception as e:  # noqa: BLE001
                     ctx.fail(f"{shape['kind']}:step:exception", f"CombinatorStep.run raised {type(e).__name__}: {e} on {shape} {evs}",
                              {"shape": shape, "stream": S, "orders": [order], "step_seed": seed})
-                    continue
+                    break  # a crashed step may leave the shared database connection unusable: the failing input is recorded, stop here
                 res = out
                 out = step_schemas(res)
                 rp = {"shape": shape, "stream": S, "orders": [order], "step_seed": seed}
